@@ -26,6 +26,8 @@ MODELS = [
     ("MC_hist", {"Family": '"wb"', "Tier": '"quick"', "Export": "FALSE", "Defects": '{"bg_drops_refs"}'}, {"C08"}),
     ("MC_hist", {"Family": '"inval"', "Tier": '"quick"', "Export": "FALSE", "Defects": '{"four_unsafe_methods"}'}, {"C07"}),
     ("MC_store", {"Family": '"store"', "Tier": '"quick"', "Export": "FALSE", "Defects": '{"store_304"}'}, {"C06"}),
+    ("MC_conc", {"Tier": '"quick"', "Export": "FALSE", "Defects": '{"bg_shares_response"}'}, {"C16"}),
+    ("MC_swr", {"Tier": '"quick"', "Export": "FALSE", "SwrSetting": "0", "Defects": '{"bg_shares_response"}'}, {"C16"}),
 ]
 PLAIN = [
     # module, constants, invariant that must be violated
